@@ -155,3 +155,69 @@ func VerifC08_TwoSubscribers(h *zz.H) {
 	h.Assert(last != nil && last.Timestamp == int64(10+U-1), "C08: other subscribers keep receiving updates while one subscriber's sends are blocked")
 	h.Assert(len(s1.sent) <= 1, "C08: the blocked subscriber received nothing further")
 }
+
+// VerifC08_StalledEnds: two subscribers with (possibly nested) paths; the first one's sends stay
+// blocked for good, so its send timeout may end it (environment event) - at any moment relative
+// to the writer. The other subscriber keeps receiving the target's updates before, while and
+// after the stalled subscription is torn down (its queries are unregistered on the way out).
+func VerifC08_StalledEnds(h *zz.H) {
+	c := cache.New([]string{c05DevA})
+	s, _ := NewServer(c)
+	c.SetClient(s.Update)
+	leaf := vLeafSpec{target: c05DevA, idx: []string{"a", "b"}}
+	sub := func(depth int) *vStream {
+		p := &pb.Path{}
+		for _, e := range leaf.idx[:depth] {
+			p.Elem = append(p.Elem, &pb.PathElem{Name: e})
+		}
+		sl := &pb.SubscriptionList{Mode: pb.SubscriptionList_STREAM, Prefix: &pb.Path{Target: c05DevA}, Subscription: []*pb.Subscription{{Path: p}}, UpdatesOnly: true}
+		return &vStream{ctx: context.Background(), h: h, first: &pb.SubscribeRequest{Request: &pb.SubscribeRequest_Subscribe{Subscribe: sl}}, block: true}
+	}
+	s1, s2 := sub(h.Range("stalled_depth", 0, 2)), sub(h.Range("healthy_depth", 0, 2))
+	never := make(chan bool)
+	stalled := make(chan bool, 1)
+	s1.onSend = func(*pb.SubscribeResponse) error {
+		stalled <- true
+		<-never // permanently stalled subscriber
+		return nil
+	}
+	synced2 := make(chan bool, 1)
+	s2.onSend = func(r *pb.SubscribeResponse) error {
+		if vIsSync(r) {
+			synced2 <- true
+		}
+		return nil
+	}
+	var err1, err2 error
+	done1, done2 := false, false
+	go func() { err1 = s.Subscribe(s1); done1 = true }()
+	go func() { err2 = s.Subscribe(s2); done2 = true }()
+	h.Await(stalled) // S1 is blocked inside its first send (the sync of updates_only)
+	h.Await(synced2) // S2 is registered and synced
+	if h.Range("wait_for_teardown", 0, 1) == 1 {
+		h.Quiesce() // whatever the timers do happens before the writer starts
+	}
+	U := h.Param("U", 1)
+	for i := 0; i < U; i++ {
+		h.Assert(c.GnmiUpdate(leaf.notification(int64(10+i), int64(10+i))) == nil, "C08: the cache keeps accepting updates while a subscriber is blocked")
+	}
+	h.Quiesce()
+	if done1 {
+		h.Cover("the stalled subscription was ended by its send timeout")
+		h.Assert(err1 != nil && h.EnvEvents() > 0, "C08: a stalled STREAM subscription ends only with the timeout error")
+	}
+	if done2 {
+		// the healthy subscriber's own send timer fired during one of its sends (possible under the
+		// any-timing timer model): its stream legitimately ended
+		h.Assert(err2 != nil && h.EnvEvents() > 0, "C08: a STREAM subscription ends only with an error")
+		return
+	}
+	var last *pb.Notification
+	for _, r := range s2.sent {
+		if n := r.GetUpdate(); n != nil {
+			last = n
+		}
+	}
+	h.Assert(last != nil && last.Timestamp == int64(10+U-1), "C08: other subscribers keep receiving updates while and after a stalled subscriber is torn down")
+	h.Assert(len(s1.sent) <= 1, "C08: the blocked subscriber received nothing further")
+}
